@@ -1,11 +1,201 @@
-//! (stub) binding for this area — see DESIGN.md
-use crate::util::Args;
+//! Binding of spec/Pipeline.tla to the real streaming pipeline (agc_compressor.rs +
+//! memory_bounded_queue.rs): runs `create` in-process (the CLI's call sequence) with the
+//! cfg(ragc_verif) hooks recording one event per specification action, optionally perturbing the
+//! schedule at the yield points, and writes the events as an NDJSON trace for Trace_Pipeline.tla.
+//!
+//! Post-processing is limited to joins that program order makes certain: an item's key logged by a
+//! thread immediately before its own queue call is attached to the queue event (emitted under the
+//! queue mutex) of the same thread; no cross-thread ordering other than the global sequence
+//! number (taken under the queue mutex for queue events) is used.
+use crate::archive::{create_like_cli, CreateOpts};
+use crate::util::{self, Args};
 use anyhow::Result;
+use ragc_common::verif::{self, Event};
+use rand::Rng;
+use serde_json::{json, Value};
+use std::collections::HashMap;
+use std::io::Write;
+use std::sync::atomic::{AtomicU64, Ordering};
+use std::sync::{Arc, Mutex};
 
-/// Returns None when `cmd` is not one of this module's sub-commands.
 pub fn dispatch(cmd: &str, a: &Args) -> Option<Result<()>> {
-    let _ = a;
     match cmd {
+        "drive-pipeline" => Some(drive(a)),
         _ => None,
     }
+}
+
+fn num(e: &Event, k: &str) -> i64 {
+    e.nums.iter().find(|(n, _)| *n == k).map(|x| x.1).unwrap_or(-1)
+}
+fn text<'a>(e: &'a Event, k: &str) -> &'a str {
+    e.text.iter().find(|(n, _)| *n == k).map(|x| x.1.as_str()).unwrap_or("")
+}
+
+fn drive(a: &Args) -> Result<()> {
+    util::install_panic_hook();
+    let o = CreateOpts::from_args(a)?;
+    let perturb: u64 = a.num("perturb", 0u64);
+    let stall_secs: u64 = a.num("stall-secs", 60u64);
+    let events: Arc<Mutex<Vec<Event>>> = Arc::new(Mutex::new(Vec::new()));
+    let last_progress = Arc::new(AtomicU64::new(0));
+    let t0 = std::time::Instant::now();
+    {
+        let ev = events.clone();
+        let lp = last_progress.clone();
+        verif::install(Some(Arc::new(move |e: Event| {
+            lp.store(t0.elapsed().as_millis() as u64, Ordering::Relaxed);
+            ev.lock().unwrap().push(e);
+        })));
+    }
+    if perturb != 0 {
+        let ctr = Arc::new(AtomicU64::new(0));
+        verif::install_scheduler(Some(Arc::new(move |site: &'static str| {
+            let n = ctr.fetch_add(1, Ordering::Relaxed);
+            let mut r = util::rng(perturb ^ (verif::thread_id() << 32) ^ n ^ (site.len() as u64) << 20);
+            match r.gen_range(0..10) {
+                0..=3 => {}
+                4..=6 => std::thread::yield_now(),
+                7..=8 => std::thread::sleep(std::time::Duration::from_micros(r.gen_range(50..1500))),
+                _ => std::thread::sleep(std::time::Duration::from_millis(r.gen_range(2..12))),
+            }
+        })));
+    }
+    // run create on its own thread; the main thread is the watchdog
+    let (tx, rx) = std::sync::mpsc::channel();
+    let o2 = o.clone();
+    std::thread::spawn(move || {
+        let r = util::catch(std::panic::AssertUnwindSafe(|| create_like_cli(&o2)));
+        let _ = tx.send(r);
+    });
+    let mut stalled = false;
+    let result = loop {
+        match rx.recv_timeout(std::time::Duration::from_millis(200)) {
+            Ok(r) => break Some(r),
+            Err(std::sync::mpsc::RecvTimeoutError::Timeout) => {
+                let idle = t0.elapsed().as_millis() as u64 - last_progress.load(Ordering::Relaxed);
+                if idle > stall_secs * 1000 {
+                    stalled = true;
+                    break None;
+                }
+            }
+            Err(_) => break None,
+        }
+    };
+    verif::install(None);
+    verif::install_scheduler(None);
+    let (class, msg) = match &result {
+        Some(Ok(Ok(()))) => ("ok", String::new()),
+        Some(Ok(Err(e))) => ("err", format!("{:#}", e)),
+        Some(Err(p)) => ("panic", p.clone()),
+        None => ("stalled", String::new()),
+    };
+    let sha = if class == "ok" { std::fs::read(&o.out).map(|b| util::sha256_hex(&b)).unwrap_or_default() } else { String::new() };
+
+    // ---- post-processing into specification-level events -------------------------------------
+    let mut evs = events.lock().unwrap().clone();
+    evs.sort_by_key(|e| e.seq);
+    // contig identity: push order index (1-based) by (sample, contig)
+    let mut contig_idx: HashMap<(String, String), usize> = HashMap::new();
+    let mut seq_idx: HashMap<i64, usize> = HashMap::new();
+    let mut contigs: Vec<Value> = vec![];
+    let mut sample_ids: HashMap<String, usize> = HashMap::new();
+    for e in evs.iter().filter(|e| e.kind == "p_contig") {
+        let s = text(e, "sample").to_string();
+        let c = text(e, "contig").to_string();
+        let n = sample_ids.len() + 1;
+        let sid = *sample_ids.entry(s.clone()).or_insert(n);
+        contigs.push(json!({"sample": sid, "size": num(e, "cost")}));
+        contig_idx.insert((s, c), contigs.len());
+        seq_idx.insert(num(e, "seq"), contigs.len());
+    }
+    // worker id of a thread
+    let mut tid_w: HashMap<u64, i64> = HashMap::new();
+    for e in &evs {
+        if e.kind.starts_with("w_") {
+            tid_w.insert(e.tid, num(e, "w"));
+        }
+    }
+    let mut pending: HashMap<u64, Event> = HashMap::new(); // last p_contig / p_token of a thread
+    let mut ticket_item: HashMap<i64, Value> = HashMap::new();
+    let mut out: Vec<Value> = vec![];
+    let imax = i32::MAX as i64;
+    let mut pos_of_take: HashMap<u64, usize> = HashMap::new();
+    for e in &evs {
+        match e.kind {
+            "p_contig" | "p_token" => {
+                pending.insert(e.tid, e.clone());
+            }
+            "admit" => {
+                if let Some(p) = pending.remove(&e.tid) {
+                    let item = if p.kind == "p_contig" {
+                        json!({"ev": "PushContig", "i": seq_idx[&num(&p, "seq")], "dprio": imax - num(&p, "prio"), "cost": num(&p, "cost"),
+                               "qseq": num(&p, "seq"), "cur": num(e, "cur"), "len": num(e, "len")})
+                    } else {
+                        let why = ["pack", "flush", "final"][num(&p, "why") as usize];
+                        json!({"ev": "PushToken", "why": why, "dprio": imax - num(&p, "prio"), "low": num(&p, "prio") == 1_000_000,
+                               "qseq": num(&p, "seq"), "cur": num(e, "cur"), "len": num(e, "len")})
+                    };
+                    ticket_item.insert(num(e, "ticket"), item.clone());
+                    out.push(item);
+                }
+            }
+            "push_wait" => out.push(json!({"ev": "PushWait", "size": num(e, "size"), "cur": num(e, "cur"), "len": num(e, "len")})),
+            "take" => {
+                let it = ticket_item.get(&num(e, "ticket")).cloned().unwrap_or(json!({}));
+                let kind = if it["ev"] == "PushContig" { "c" } else { "t" };
+                pos_of_take.insert(e.tid, out.len());
+                out.push(json!({"ev": "Pull", "w": -1, "kind": kind, "i": it.get("i").cloned().unwrap_or(json!(0)), "cur": num(e, "cur"), "len": num(e, "len")}));
+            }
+            "w_pulled" => {
+                // attach the worker id to this thread's preceding take
+                if let Some(p) = pos_of_take.remove(&e.tid) {
+                    out[p]["w"] = json!(num(e, "w"));
+                }
+            }
+            "eos" => out.push(json!({"ev": "Eos", "w": tid_w.get(&e.tid).copied().unwrap_or(-1)})),
+            "close" => out.push(json!({"ev": "Close"})),
+            "p_wait_done" => out.push(json!({"ev": "Wait", "why": if num(e, "why") == 0 { "drain" } else { "flush" }})),
+            "p_joined" => out.push(json!({"ev": "Joined"})),
+            "w_segmented" => out.push(json!({"ev": "Segmented", "w": num(e, "w"), "i": seq_idx.get(&num(e, "seq")).copied().unwrap_or(0)})),
+            "w_arrive" => out.push(json!({"ev": "Arrive", "w": num(e, "w"), "b": num(e, "b")})),
+            "w_leave" => out.push(json!({"ev": "Leave", "w": num(e, "w"), "b": num(e, "b")})),
+            "w_classify" => {
+                let mut ids: Vec<usize> = text(e, "batch")
+                    .split('\n')
+                    .filter(|s| !s.is_empty())
+                    .map(|s| {
+                        let mut it = s.splitn(2, '\t');
+                        let a = it.next().unwrap_or("").to_string();
+                        let b = it.next().unwrap_or("").to_string();
+                        contig_idx.get(&(a, b)).copied().unwrap_or(0)
+                    })
+                    .collect();
+                ids.sort();
+                out.push(json!({"ev": "Classify", "w": num(e, "w"), "batch": ids}));
+            }
+            "w_exit" => out.push(json!({"ev": "Exit", "w": num(e, "w")})),
+            _ => {}
+        }
+    }
+    // a take whose w_pulled never came (stalled run): resolve through the thread table
+    for v in out.iter_mut() {
+        if v["ev"] == "Pull" && v["w"] == json!(-1) {
+            v["w"] = json!(-2);
+        }
+    }
+    let mode = if o.files.len() == 1 { "single" } else { "multi" };
+    let mut f = std::io::BufWriter::new(std::fs::File::create(a.get("trace")?)?);
+    writeln!(f, "{}", json!({"ev": "Header", "n": o.threads, "mode": mode, "pack": o.pack_size, "cap": o.queue_capacity.min(2_000_000_000),
+        "contigs": contigs, "result": class, "msg": msg, "sha": sha, "stalled": stalled, "id": a.opt("id").unwrap_or("")}))?;
+    for v in &out {
+        writeln!(f, "{}", v)?;
+    }
+    f.flush()?;
+    println!("{}", json!({"result": class, "msg": msg, "sha256": sha, "events": out.len(), "stalled": stalled, "contigs": contigs.len()}));
+    if stalled {
+        // worker threads may be blocked forever: leave without joining them
+        std::process::exit(0);
+    }
+    Ok(())
 }
